@@ -18,4 +18,10 @@ def placeholderShorthands : List (String × String) := [("{host}", "{http.reques
 /-- modules/caddyhttp/app.go (*App).Stop: every `caddy.ListenerUsage(args)` call: `args | enclosing range loops` -/
 def listenerUsageCalls : List String := ["addr.Network, addr.JoinHostPort(0) | server in app.Servers; na in server.addresses; addr in na.Expand()"]
 
+/-- every name passed as a string literal to RegisterDirective / RegisterHandlerDirective in non-test files of the module (sorted) -/
+def registeredDirectives : List String := ["abort", "acme_server", "basic_auth", "basicauth", "bind", "copy_response", "copy_response_headers", "encode", "error", "file_server", "forward_auth", "fs", "handle", "handle_errors", "handle_path", "header", "intercept", "invoke", "log", "log_append", "log_name", "log_skip", "map", "method", "metrics", "php_fastcgi", "push", "redir", "request_body", "request_header", "respond", "reverse_proxy", "rewrite", "root", "route", "skip_log", "templates", "tls", "tracing", "try_files", "uri", "vars"]
+
+/-- … and to RegisterGlobalOption (sorted) -/
+def registeredGlobalOptions : List String := ["acme_ca", "acme_ca_root", "acme_dns", "acme_eab", "admin", "auto_https", "cert_issuer", "cert_lifetime", "debug", "default_bind", "default_sni", "dns", "ech", "email", "events", "fallback_sni", "filesystem", "grace_period", "http_port", "https_port", "key_type", "local_certs", "log", "metrics", "ocsp_interval", "ocsp_stapling", "on_demand_tls", "order", "persist_config", "pki", "preferred_chains", "renew_interval", "servers", "shutdown_delay", "skip_install_trust", "storage", "storage_check", "storage_clean_interval"]
+
 end CaddyModel.Gen
